@@ -45,8 +45,9 @@ func runC10(w *World, r *Report, tier string) {
 	isPush := w.isCallTo("stanza.UnAckQueue.Push")
 	isWr := w.isCallTo("xmpp.Client.sendWithWriter", "xmpp.Transport.Write", "io.Writer.Write")
 	pkt := send.Params[1]
+	// a path consistent with stream management being enabled: it never takes an edge on which the flag is false
 	smOn := func(path []ssa.Instruction) bool {
-		return pathAsserts(path, func(c ssa.Value, truth bool) bool { f, _ := loadedField(c); return f == fSM && truth })
+		return !pathAsserts(path, func(c ssa.Value, truth bool) bool { f, _ := loadedField(c); return f == fSM && !truth })
 	}
 	pts := packetTypes(w)
 	var names []string
@@ -155,18 +156,39 @@ func runC10(w *World, r *Report, tier string) {
 				}
 			}
 			if stz != nil {
-				if cv, ok := stz.(*ssa.Convert); ok {
-					if ex, ok := cv.X.(*ssa.Extract); ok {
-						if mc, ok := ex.Tuple.(*ssa.Call); ok && w.callKey(mc) == "encoding/xml.Marshal" && ex.Index == 0 {
-							okV = true
+				// judged on every path of fn that reaches this Push, with helper parameters resolved on that path
+				isThis := func(in ssa.Instruction) bool { return in == c.(ssa.Instruction) }
+				nP := 0
+				okV = true
+				walkPaths(entryLoc(fn), isThis, nil, 20000, func(path []ssa.Instruction, end pathEnd) {
+					if !isThis(path[len(path)-1]) {
+						return
+					}
+					nP++
+					v := rvI(stz, len(path)-1)
+					okOne := false
+					if cv, ok := v.(*ssa.Convert); ok {
+						if ex, ok := rvI(cv.X, len(path)-1).(*ssa.Extract); ok {
+							if mc, ok := ex.Tuple.(*ssa.Call); ok && w.callKey(mc) == "encoding/xml.Marshal" && ex.Index == 0 {
+								okOne = true
+							}
+						}
+						// SendRaw may convert its string once and hold string(bytes) of it
+						if in, ok := rvI(cv.X, len(path)-1).(*ssa.Convert); ok && isParamOf(in.X, fn) {
+							okOne = true
 						}
 					}
-				}
-				if isParamOf(stz, fn) {
-					okV = true
-				}
-				if !okV {
-					detail = "the held text is not the serialized stanza: " + describe(w, stz)
+					if isParamOf(v, fn) {
+						okOne = true
+					}
+					if !okOne {
+						okV = false
+						detail = "the held text is not the serialized stanza: " + describe(w, v)
+					}
+				})
+				if nP == 0 {
+					okV = false
+					detail = "the Push is not reachable from the entry"
 				}
 			}
 			r.Check(okV, "R1", k+"#pushed-value", w.ipos(c), detail, "holds the serialized stanza / the raw string")
